@@ -850,6 +850,8 @@ fn run(name: &str, j: &J) -> Result<bool, String> {
                 "SELECT a FROM (SELECT * FROM table_1 AS x JOIN table_2 AS y ON x.id = y.id) AS s",
                 "WITH s AS (SELECT * FROM schema.table_1 JOIN schema.table_2 ON schema.table_1.id = schema.table_2.id) SELECT a FROM s",
                 "SELECT a FROM s1.t JOIN s2.t ON s1.t.id = s2.t.id",
+                "SELECT a FROM (SELECT a, b FROM table_1) JOIN table_2 ON b = c",
+                "SELECT id FROM table_2 JOIN (SELECT a, id FROM table_1) ON b = c",
                 "SELECT t.a FROM s1.t JOIN s2.t ON s1.t.id = s2.t.id",
             ];
             let one = |q: &str| -> Option<String> {
@@ -1135,7 +1137,9 @@ fn run(name: &str, j: &J) -> Result<bool, String> {
                 "SELECT count(a) AS c FROM (SELECT a FROM t UNION SELECT a FROM p) AS w", "SELECT t.a FROM t JOIN p ON t.k = p.k", "SELECT sum(t.a) AS s FROM t JOIN u ON t.id = u.id", "SELECT a FROM p UNION SELECT a FROM p",
                 "WITH totals AS (SELECT k AS it, SUM(a) AS total FROM t GROUP BY k) SELECT o.k AS item, COUNT(o.a) AS cnt FROM totals AS w JOIN t AS o ON w.it = o.k GROUP BY o.k",
                 "WITH totals AS (SELECT k AS it, SUM(a) AS total FROM t GROUP BY k) SELECT o.k AS item, o.a AS a, w.total AS total FROM totals AS w JOIN t AS o ON w.it = o.k",
-                "SELECT sum(a) AS s FROM (SELECT a FROM t UNION SELECT a FROM u) AS w"];
+                "SELECT sum(a) AS s FROM (SELECT a FROM t UNION SELECT a FROM u) AS w",
+                "SELECT a FROM t UNION SELECT a FROM p", "SELECT a FROM p UNION SELECT a FROM t", "SELECT a FROM t UNION SELECT a FROM t GROUP BY a", "SELECT a FROM t GROUP BY a UNION SELECT a FROM u",
+                "SELECT k, sum(a) AS s FROM t GROUP BY k UNION SELECT k, a FROM p"];
             let one = |q: &str, with_sd: bool| -> Option<String> {
                 let sd = || if with_sd { Some(SyntheticData::new(Hierarchy::from([(vec!["t"], Identifier::from("synthetic_t")), (vec!["u"], Identifier::from("synthetic_u")), (vec!["p"], Identifier::from("synthetic_p"))]))) } else { None };
                 let pu = || PrivacyUnit::from(vec![("t", vec![], "id"), ("u", vec![], "id")]);
@@ -1189,8 +1193,9 @@ fn run(name: &str, j: &J) -> Result<bool, String> {
             use qrlew::{hierarchy::Hierarchy, expr::Identifier, sql::parse, differential_privacy::DpParameters};
             use std::sync::Arc;
             let t: Relation = Relation::table().name("t").schema(vec![("id", DataType::integer_interval(0, 100)), ("g", DataType::integer_values([1, 2, 3])), ("h", DataType::integer_values([1, 2])), ("score", DataType::integer_values([-5, 5])), ("x", DataType::float_interval(-10., 10.))].into_iter().collect::<Schema>()).size(1000).build();
-            let relations: Hierarchy<Arc<Relation>> = vec![t].iter().map(|t| (Identifier::from(t.name()), Arc::new(t.clone()))).collect();
-            let queries: Vec<(&str, usize)> = vec![("SELECT sum(x) AS s FROM t", 0), ("SELECT g, sum(x) AS s FROM t GROUP BY g", 1), ("SELECT g, h, sum(x) AS s, avg(x) AS a FROM t GROUP BY g, h", 2),
+            let tu: Relation = Relation::table().name("tu").schema(vec![("id", DataType::integer_interval(0, 100), Some(qrlew::relation::Constraint::Unique)), ("g", DataType::integer_values([1, 2, 3]), None), ("x", DataType::float_interval(-10., 10.), None)].into_iter().collect::<Schema>()).size(1000).build();
+            let relations: Hierarchy<Arc<Relation>> = vec![t, tu].iter().map(|t| (Identifier::from(t.name()), Arc::new(t.clone()))).collect();
+            let queries: Vec<(&str, usize)> = vec![("SELECT sum(x) AS s FROM tu", 0), ("SELECT g, sum(x) AS s FROM tu GROUP BY g", 1), ("SELECT sum(x) AS s FROM t", 0), ("SELECT g, sum(x) AS s FROM t GROUP BY g", 1), ("SELECT g, h, sum(x) AS s, avg(x) AS a FROM t GROUP BY g, h", 2),
                 ("SELECT score, sum(score) AS s FROM t GROUP BY score", 1), ("SELECT g, score, sum(score) AS s FROM t GROUP BY g, score", 2)];
             fn innermost_norm_groups(r: &Relation, out: &mut Vec<usize>) {
                 if let Relation::Reduce(red) = r {
@@ -1202,8 +1207,11 @@ fn run(name: &str, j: &J) -> Result<bool, String> {
             }
             let one = |q: &str, keys: usize| -> Option<String> {
                 let relation = Relation::try_from(parse(q).ok()?.with(&relations)).ok()?;
-                let rw = relation.rewrite_with_differential_privacy(&relations, None, PrivacyUnit::from(vec![("t", vec![], "id")]), DpParameters::from_epsilon_delta(1., 1e-3)).ok()?;
+                let rw = relation.rewrite_with_differential_privacy(&relations, None, PrivacyUnit::from(vec![("t", vec![], "id"), ("tu", vec![], "id")]), DpParameters::from_epsilon_delta(1., 1e-3)).ok()?;
                 let mut g = vec![]; innermost_norm_groups(rw.relation(), &mut g);
+                // the noise is calibrated on a per-unit clipping bound: the clipping stage (per-unit norms) has to be there, whatever
+                // the schema declares about the number of rows of a unit
+                if g.is_empty() { return Some(format!("`{}`: the rewritten query adds noise but has no per-unit clipping stage (no _NORM_ columns)", q)); }
                 for n in g { if n != keys + 1 { return Some(format!("`{}`: the partial sums behind the clipping norm are grouped by {} columns; the query has {} grouping columns plus the privacy unit", q, n, keys)); } }
                 None
             };
